@@ -258,7 +258,9 @@ def render_eq(lhs, de, ast, notation=0, style=None):
     return f"{lhs} = {rhs}"
 
 
-def var_decl(kind, value, is_out):
+def var_decl(kind, value, is_out, int_decl=False):
+    if int_decl and kind == "const" and float(value) == int(value):
+        return int(value)          # a parameter declared with an integer literal (k: 2)
     v = repr(float(value))
     if kind in ("state", "alg"):
         return f"output({v})" if is_out else f"variable({v})"
@@ -272,7 +274,7 @@ def build_operator(name, od, style=None):
     eqs = [render_eq(lhs, de, ast, (rest[0] if rest else 0), style) for lhs, de, ast, *rest in od["eqs"]]
     variables = {}
     for vname, kind, val in od["vars"]:
-        variables[vname] = var_decl(kind, val, od.get("out") == vname)
+        variables[vname] = var_decl(kind, val, od.get("out") == vname, bool(od.get("int_decl")))
     if any(E.uses_time(ast) for _, _, ast, *_ in od["eqs"]):
         variables["t"] = "variable(0.0)"
     return OperatorTemplate(name=name, equations=eqs, variables=variables, path=None)
@@ -292,20 +294,31 @@ def edge_source_attributes(spec, e):
     return d
 
 
-def build_circuit(spec, name="net", style=None):
-    """Fresh template objects for every call (templates must never be reused across compilations)."""
+def build_circuit(spec, name="net", style=None, pool=None):
+    """Fresh template objects for every call, unless a `pool` (dict) is passed: operator, node and edge template objects
+    found in the pool are used as they are and new ones are put into it (circuits that share template objects)."""
     from pyrates import CircuitTemplate, EdgeTemplate, NodeTemplate
-    ops = {o: build_operator(o, od, style) for o, od in spec["ops"].items()}
-    nts = {}
+    if pool is not None:
+        ops = pool.setdefault("ops", {})
+        for o, od in spec["ops"].items():
+            if o not in ops:
+                ops[o] = build_operator(o, od, style)
+        nts, ets = pool.setdefault("nts", {}), pool.setdefault("ets", {})
+    else:
+        ops = {o: build_operator(o, od, style) for o, od in spec["ops"].items()}
+        nts, ets = {}, {}
     for ntname, nt in spec["ntypes"].items():
+        if ntname in nts:
+            continue
         ov = nt.get("ov") or {}
         if any(ov.get(o) for o in nt["ops"]):
             nts[ntname] = NodeTemplate(name=ntname, path=None,
                                        operators={ops[o]: dict(ov.get(o, {})) for o in nt["ops"]})
         else:
             nts[ntname] = NodeTemplate(name=ntname, path=None, operators=[ops[o] for o in nt["ops"]])
-    ets = {}
     for etname, et in (spec.get("etypes") or {}).items():
+        if etname in ets:
+            continue
         ov = et.get("ov") or {}
         ets[etname] = EdgeTemplate(name=etname, path=None,
                                    operators={ops[o]: dict(ov.get(o, {})) for o in et["ops"]})
